@@ -852,3 +852,64 @@ pub fn check_step<F: Flav>(pre: &Obs, op: Op, res: &Res, eid: Option<Eid>, post:
     }
     v
 }
+
+// ---------------------------------------------------------------- hang watchdog
+
+/// Non-termination inside one library call is decided on CPU time, not wall
+/// time: the monitors call `tick` before every case; if the tick counter does
+/// not move while the process burns `CPU_LIMIT_S` seconds of CPU, the current
+/// case is reported as a hang (`HANG property=.. case=..` on stderr, exit 3).
+/// If it does not move and no CPU is consumed either (blocked / starved) for
+/// a long wall-clock time the run is inconclusive (exit 4).
+pub mod watchdog {
+    use std::sync::atomic::{AtomicU64, Ordering as AO};
+    use std::sync::Mutex;
+
+    static TICKS: AtomicU64 = AtomicU64::new(0);
+    static CASE: Mutex<String> = Mutex::new(String::new());
+    pub const CPU_LIMIT_S: f64 = 20.0;
+
+    fn cpu_seconds() -> f64 {
+        let s = std::fs::read_to_string("/proc/self/stat").unwrap_or_default();
+        // fields after the ")" of comm: state is #3; utime #14, stime #15
+        let rest = s.rsplit(')').next().unwrap_or("");
+        let f: Vec<&str> = rest.split_whitespace().collect();
+        let ut: f64 = f.get(11).and_then(|x| x.parse().ok()).unwrap_or(0.0);
+        let st: f64 = f.get(12).and_then(|x| x.parse().ok()).unwrap_or(0.0);
+        (ut + st) / 100.0
+    }
+
+    pub fn tick(desc: impl FnOnce() -> String) {
+        TICKS.fetch_add(1, AO::Relaxed);
+        if let Ok(mut c) = CASE.try_lock() {
+            *c = desc();
+        }
+    }
+
+    pub fn start(property: String) {
+        std::thread::spawn(move || {
+            let mut last = TICKS.load(AO::Relaxed);
+            let mut cpu_at_change = cpu_seconds();
+            let mut wall_at_change = std::time::Instant::now();
+            loop {
+                std::thread::sleep(std::time::Duration::from_millis(1000));
+                let now = TICKS.load(AO::Relaxed);
+                if now != last {
+                    last = now;
+                    cpu_at_change = cpu_seconds();
+                    wall_at_change = std::time::Instant::now();
+                    continue;
+                }
+                let case = CASE.lock().map(|c| c.clone()).unwrap_or_default();
+                if cpu_seconds() - cpu_at_change >= CPU_LIMIT_S {
+                    eprintln!("HANG property={} cpu_s={:.0} case={}", property, cpu_seconds() - cpu_at_change, case);
+                    std::process::exit(3);
+                }
+                if wall_at_change.elapsed().as_secs() > 600 {
+                    eprintln!("STALLED property={} case={}", property, case);
+                    std::process::exit(4);
+                }
+            }
+        });
+    }
+}
